@@ -64,6 +64,18 @@ class FakeListenSocket:
         self.closed = True
 
 
+class WaitFor:
+    """A pseudo-segment: the client sends nothing more until pred(bytes sent
+    by the server so far) holds (a client waiting for '100 Continue')."""
+
+    def __init__(self, pred, label=""):
+        self.pred = pred
+        self.label = label
+
+    def __len__(self):
+        return 0
+
+
 class FakeConn:
     """Scripted connected socket.
 
@@ -81,7 +93,8 @@ class FakeConn:
         if FakeConn._next_fd > 2000000000:
             FakeConn._next_fd = 20000
         self._fd = FakeConn._next_fd
-        self.segments = collections.deque(s for s in segments if s)
+        self.segments = collections.deque(s for s in segments if s or isinstance(s, WaitFor))
+        self.waiting_on = None
         self.eof = eof
         self.eof_delivered = False
         self.send_pattern = tuple(send_pattern) or (-1,)
@@ -97,13 +110,20 @@ class FakeConn:
 
     # -- input side
     def has_input(self):
+        while self.segments and isinstance(self.segments[0], WaitFor):
+            if self.segments[0].pred(bytes(self.sent)):
+                self.segments.popleft()
+                self.waiting_on = None
+            else:
+                self.waiting_on = self.segments[0]
+                return False
         return bool(self.segments) or (self.eof and not self.eof_delivered)
 
     def recv(self, n):
         self.recv_calls += 1
         if self.closed:
             raise OSError(errno.EBADF, "closed")
-        if self.segments:
+        if self.segments and not isinstance(self.segments[0], WaitFor):
             seg = self.segments.popleft()
             if len(seg) > n:
                 self.segments.appendleft(seg[n:])
@@ -213,6 +233,7 @@ class Result:
         "recv_calls",
         "recv_bytes",
         "leftover_input",
+        "waiting_on",
         "channel",
         "conn",
     )
@@ -316,6 +337,8 @@ class SyncHarness:
             addr = srv.fix_addr(addr)
         ch = HTTPChannel(srv, conn, addr, srv.adj, map=srv._map)
         total = sum(len(s) for s in segments)
+        if max_steps is None and any(isinstance(s, WaitFor) for s in segments):
+            max_steps = 200 + 8 * len(segments) + total // max(1, min(srv.adj.recv_bytes, 512)) * 4
         if max_steps is None:
             max_steps = 50 + 4 * len(segments) + total // max(1, min(srv.adj.recv_bytes, 512)) * 4
             max_steps += 16 * (len(send_pattern) + 4)
@@ -367,6 +390,8 @@ class SyncHarness:
         r.recv_calls = conn.recv_calls
         r.recv_bytes = conn.recv_bytes
         r.leftover_input = sum(len(s) for s in conn.segments)
+        conn.has_input()
+        r.waiting_on = conn.waiting_on.label if conn.waiting_on is not None else None
         r.channel = ch
         r.conn = conn
         r.calls = None
